@@ -190,7 +190,9 @@ class Constructor:
         logger.debug('Checking presence of required attributes')
         for name, type_, required in class_subobjects(self.class_):
             if required and name not in mapping:
-                got = [kn.value for kn, _ in node.value]
+                got = [
+                        kn.value for kn, _ in node.value
+                        if isinstance(kn, yaml.ScalarNode)]
                 msg = diagnose_missing_key(name, got, self.class_)
                 raise RecognitionError('{}\n{}'.format(node.start_mark, msg))
             if name in mapping and not self.__type_matches(
